@@ -113,6 +113,8 @@ def _expr(draw: Any, s: dict[str, Any], alphabet: str, nts: list[str], depth: in
     hi = lo + draw(st.integers(0, 2))
     if hi == 0:
         hi = 1
+    if lo == 0 and draw(st.booleans()):
+        return ["rep", body, lo, hi, "omit_lo"]  # written {,hi}
     return ["rep", body, lo, hi]
 
 
